@@ -21,7 +21,7 @@ from fractions import Fraction
 import numpy as np
 
 PROP = 'C19'
-TARGETS = ['T12', 'T13a', 'T13c', 'T19a', 'T19b', 'T19s', 'T19m']
+TARGETS = ['T12', 'T13a', 'T13c', 'T19a', 'T19b', 'T19s', 'T19m', 'T19l']
 LEAN_MODULES = ['HdVerif.Props.C19']
 MODEL_MODULES = ['HdVerif.Model.PMap']
 NAMESPACE = 'HdVerif.C19'
@@ -295,9 +295,14 @@ def _pm_case(ctx, idx):
     ts = r.choice([EXPLICIT, EXPLICIT, IMPLICIT])
     if not dtype.startswith('float') and r.random() < 0.4:
         ts = r.choice([RLE, JLS])
+        if ctx.rng('pm-j2k', idx).random() < 0.12:
+            # admitted by the constructor (Gen.pmSyntaxAdmitted); no encoder is installed here, so the codec gives up
+            ts = J2KL
     rows, cols = (r.randint(1, 7), r.randint(1, 7)) if r.random() < 0.8 else (r.randint(1, 20), r.randint(1, 20))
     if ts == JLS:
         rows, cols = max(rows, 8) + r.randint(0, 4), max(cols, 8) + r.randint(0, 4)
+    if ts == J2KL:
+        rows, cols = 32 + r.randint(0, 3), 32 + r.randint(0, 3)
     shape = {2: (rows, cols), 3: (n, rows, cols), 4: (n, rows, cols, M)}[ndim]
     layout = r.choice(['c', 'c', 'c', 'fortran', 'view', 'bigendian'])
     explicit_pos = r.random() < 0.3
@@ -388,6 +393,9 @@ def _check_pm(ctx, idx, reqs, pending):
         ctx.case(kind='pm', outcome='refused', dtype=d['dtype'], layout=d['layout'], syntax=TSNAME[d['ts']])
         if d['ts'] in (JLS, RLE) and 'Unable to encode' in pm:
             ctx.hist('pm_codec_limit', TSNAME[d['ts']])          # the codec gave up on this frame: a refusal, not a defect
+        elif d['ts'] == J2KL and not must_refuse and ('plugins are missing' in pm or 'Unable to' in pm):
+            # admitted by the constructor's own checks (it got as far as the encoder); no JPEG 2000 encoder installed
+            ctx.hist('pm_codec_limit', TSNAME[d['ts']] + ' (no encoder installed)')
         else:
             if not must_refuse:
                 ctx.fail(case, f'valid parametric map refused: {pm}', site='pm-construct')
